@@ -21,13 +21,40 @@ pub enum Alg {
 pub enum Spl {
     None,
     Hyphen,
-    /// custom splitter: split between two adjacent ASCII letters (inserts a hyphen)
+    /// custom splitter: split inside runs of ASCII letters after every second letter (inserts a hyphen)
     Cust,
 }
 
 pub fn custom_split(word: &str) -> Vec<usize> {
-    let cs: Vec<(usize, char)> = word.char_indices().collect();
-    (1..cs.len()).filter(|&k| cs[k - 1].1.is_ascii_alphabetic() && cs[k].1.is_ascii_alphabetic()).map(|k| cs[k].0).collect()
+    // split inside runs of ASCII letters, before every letter that is preceded by an even,
+    // non-zero number of letters of its run: "abcde" -> "ab-", "cd-", "e".  The pieces are wider
+    // than one column, so that break_words has something to break after the splitter ran.
+    let mut run = 0usize;
+    let mut out = vec![];
+    for (i, c) in word.char_indices() {
+        if c.is_ascii_alphabetic() {
+            if run > 0 && run % 2 == 0 {
+                out.push(i);
+            }
+            run += 1;
+        } else {
+            run = 0;
+        }
+    }
+    out
+}
+
+/// Is byte offset `e` of `text` a split point of `custom_split`?  (Decidable locally: runs of
+/// letters are never interrupted by a word boundary of either separator.)
+pub fn is_custom_split_point(text: &str, e: usize) -> bool {
+    if e == 0 || e >= text.len() || !text.is_char_boundary(e) {
+        return false;
+    }
+    if !text[e..].starts_with(|c: char| c.is_ascii_alphabetic()) {
+        return false;
+    }
+    let run = text[..e].chars().rev().take_while(|c| c.is_ascii_alphabetic()).count();
+    run > 0 && run % 2 == 0
 }
 
 #[derive(Clone, Copy, Debug, PartialEq)]
